@@ -745,6 +745,11 @@ def const_set(tier):
                                 Field([(80, 2)], 'u', arr=(24, 2), stride_explicit=False)], has_builder=True, family='BLDMULTIARR'))
     structs.append(Struct(128, [Field([(0, 2)], 'u', arr=(20, 2), stride_explicit=False), Field([(64, 16)], 'i', arr=(4, 16), stride_explicit=False)],
                           default=1 << 50, has_builder=True, family='BLDMULTIARR'))
+    # the longest arrays a base can hold: the builder step must still be evaluable at compile time (const-eval depth / step limits)
+    structs.append(Struct(128, [Field([(0, 1)], 'b', arr=(128, 1), stride_explicit=False, family='BLDLONG')], has_builder=True, family='BLDLONG'))
+    structs.append(Struct(128, [Field([(0, 1)], 'u', arr=(126, 1), stride_explicit=False, family='BLDLONG'), Field([(126, 2)], 'u', family='BLDLONG')],
+                          has_builder=True, family='BLDLONG'))
+    structs.append(Struct(127, [Field([(0, 1)], 'b', arr=(127, 1), stride_explicit=False, family='BLDLONG')], default=1, has_builder=True, family='BLDLONG'))
     # custom-typed fields that cover the whole base (and, on native bases, the whole storage integer)
     for n in (3, 8, 16, 32, 64, 128):
         fs = [Field([(0, n)], 'c', inner_n=n, family='CUSTFULL')]
